@@ -11,11 +11,31 @@ here="$(cd "$(dirname "$0")" && pwd)"
 cd "$here" || exit 2
 export VERIF_ROOT="$here"
 mkdir -p bin evidence
-if ! go build -tags verif -o "bin/geomsim-$prop" ./cmd/geomsim 2>"bin/build-$prop.log"; then
+modflag=""
+scratch=""
+if [ "$prop" = C18 ]; then
+	# C18's scheduler can only switch goroutines at announced lock/channel
+	# operations: build against a scratch copy of /repo in which every
+	# Lock/RLock call of encoding/osm that carries no announcement gets one
+	# (tools/hookfill; inserts nothing when the hooks are complete)
+	scratch=$(mktemp -d /tmp/verif-c18.XXXXXX) || exit 2
+	trap 'rm -rf "$scratch"' EXIT
+	if ! go build -o bin/hookfill ./tools/hookfill 2>"bin/build-$prop.log" || ! bin/hookfill /repo "$scratch/repo" >"bin/hookfill.log" 2>&1; then
+		echo "check.sh: hookfill failed (not a property violation):" >&2
+		cat "bin/build-$prop.log" bin/hookfill.log 2>/dev/null | head -20 >&2
+		exit 2
+	fi
+	sed "s#=> /repo#=> $scratch/repo#" go.mod > "$scratch/go.mod"
+	cp go.sum "$scratch/go.sum"
+	modflag="-modfile=$scratch/go.mod"
+	grep -v "^hookfill: 0 " bin/hookfill.log
+fi
+if ! go build $modflag -tags verif -o "bin/geomsim-$prop" ./cmd/geomsim 2>"bin/build-$prop.log"; then
 	echo "check.sh: build against /repo failed (not a property violation):" >&2
 	head -40 "bin/build-$prop.log" >&2
 	exit 2
 fi
+[ -n "$scratch" ] && rm -rf "$scratch"
 "bin/geomsim-$prop" run -prop "$prop" -tier "$tier"
 code=$?
 # keep a copy of thorough-tier evidence next to the file the harness reads
